@@ -244,6 +244,27 @@ Theorem nested_info_faithful_node :
                     paired F sub (un_info info) (un_cp cp).
 Proof. exact node_exec_sub_ok. Qed.
 
+(* the first clause below the top level: a pair (information, checkpoint) that belongs together — every
+   interrupt of the run, and by [paired_descends] every nested pair found in it under a graph node, at any
+   depth — is honoured by ANY segment resumed from that checkpoint (whatever node bodies, schedule, state
+   modifier): an interrupt-before node of that graph executes only if that information reports it. The run
+   loop hands a graph node the nested checkpoint stored under its key and nothing else (C05:
+   sub_checkpoint_used_once). *)
+Theorem resumed_from_paired_honours : forall F g (i : inf) (c : cpt),
+  paired F g i c ->
+  forall (ex : N -> option ncp -> value -> env -> tex * env) gi sm e o l e',
+    seg_resumed ex gi g sm c e = (o, l, e') ->
+    forall ev, In ev l -> memN (ev_key ev) (gs_before g) = true -> reported i (ev_key ev).
+Proof. exact paired_resume_honours. Qed.
+
+Theorem paired_descends_to_nested : forall F g (i : inf) (c : cpt),
+  paired F g i c ->
+  forall k sc, In (k, sc) (cp_subs c) ->
+    exists si n j sub, In (k, si) (ii_subs i) /\
+      find_node (gs_graph g) k = Some n /\ n_kind n = KSub j /\ nth_error F j = Some sub /\
+      paired F sub (un_info si) (un_cp sc).
+Proof. exact paired_descends. Qed.
+
 Example nested_info_faithful_witness : exists co rest e i c si sc,
   run_drive [wd_top; wd_sub] true [] wd_x (env0 []) = (co :: rest, e) /\
   co_out co = OInterrupted i c /\ ii_subs i = [(2, NInfo si)] /\ cp_subs c = [(2, NCP sc)] /\
@@ -315,3 +336,5 @@ Print Assumptions after_stops_successors_eager_segment_witness.
 Print Assumptions nested_info_faithful.
 Print Assumptions nested_info_faithful_node.
 Print Assumptions nested_info_faithful_witness.
+Print Assumptions resumed_from_paired_honours.
+Print Assumptions paired_descends_to_nested.
